@@ -44,7 +44,10 @@ func (f *Backquote) Call(s *slip.Scope, args slip.List, depth int) (result slip.
 	slip.CheckArgCount(s, depth, f, args, 1, 1)
 	result = f.expand(s, args[0], depth)
 	if s.Macro && result != nil {
-		result = result.Eval(s, depth+1)
+		// The expansion holds the forms given to the macro and any list
+		// spliced in, those may also be used as data. Evaluating a list
+		// replaces sub-forms with compiled functions so a copy is evaluated.
+		result = copyForm(result, nil).Eval(s, depth+1)
 	}
 	return
 }
